@@ -47,6 +47,10 @@ pub struct FState {
     /// environment faults: sites whose system call is made to fail (e.g. "mmap"), and how often
     /// each armed site was actually reached
     pub failing_sites: Vec<&'static str>,
+    /// sites that fail only for calls number `start .. start + count` (0-based, counted per site
+    /// since the window was set)
+    pub failing_windows: Vec<(&'static str, u64, u64)>,
+    pub site_calls: BTreeMap<&'static str, u64>,
     pub faults_fired: BTreeMap<&'static str, u64>,
 }
 
@@ -89,7 +93,14 @@ impl FHooks {
     pub fn set_failing_sites(&self, sites: Vec<&'static str>) {
         let mut st = self.st.lock().unwrap();
         st.failing_sites = sites;
+        st.failing_windows.clear();
+        st.site_calls.clear();
         st.faults_fired.clear();
+    }
+    /// Calls number `start .. start + count` at `site` fail (counted from now).
+    pub fn set_failing_window(&self, site: &'static str, start: u64, count: u64) {
+        let mut st = self.st.lock().unwrap();
+        st.failing_windows.push((site, start, count));
     }
     pub fn take_faults_fired(&self) -> BTreeMap<&'static str, u64> {
         std::mem::take(&mut self.st.lock().unwrap().faults_fired)
@@ -132,7 +143,13 @@ impl verif_rt::Hooks for FHooks {
     }
     fn fault(&self, site: &'static str) -> bool {
         let mut st = self.st.lock().unwrap();
-        if st.failing_sites.contains(&site) {
+        let n = {
+            let c = st.site_calls.entry(site).or_insert(0);
+            *c += 1;
+            *c - 1
+        };
+        let in_window = st.failing_windows.iter().any(|(s, a, k)| *s == site && n >= *a && n < *a + *k);
+        if in_window || st.failing_sites.contains(&site) {
             *st.faults_fired.entry(site).or_insert(0) += 1;
             true
         } else {
